@@ -112,8 +112,9 @@ def spec_eval_yaml(group, key, o, x: Fraction):
     if not dates:
         return None
     ent = raw[dates[-1]]
-    if "deviation_from" in ent or "progressionsfaktor" in raw and raw["progressionsfaktor"]:
+    if "deviation_from" in ent:
         return None
+    prog = bool(raw.get("progressionsfaktor"))
     keys = sorted(k for k in ent if isinstance(k, int))
     if keys != list(range(len(keys))):
         return None
@@ -121,6 +122,8 @@ def spec_eval_yaml(group, key, o, x: Fraction):
     def num(s):
         if isinstance(s, str):
             return math.inf if s == "inf" else -math.inf if s == "-inf" else None
+        if isinstance(s, Fraction):
+            return s
         return Fraction(repr(float(s))) if isinstance(s, float) else Fraction(s)
 
     lower, upper = [], []
@@ -134,6 +137,17 @@ def spec_eval_yaml(group, key, o, x: Fraction):
         lower.append(num(lo))
         upper.append(num(up))
     ft = raw.get("type", "")
+    if prog:
+        # add_progressionsfaktor: quadratic rate (rate of the next interval - rate) / (2 * width) where it is not given
+        ent = {i: dict(ent[i]) for i in keys}
+        for i in keys:
+            if "rate_quadratic" not in ent[i]:
+                if i + 1 not in ent or lower[i] is None or upper[i] is None:
+                    return None
+                if lower[i] == -math.inf or upper[i] == math.inf:
+                    ent[i]["rate_quadratic"] = Fraction(0)          # x / inf = 0.0
+                else:
+                    ent[i]["rate_quadratic"] = (num(ent[i + 1]["rate_linear"]) - num(ent[i]["rate_linear"])) / (2 * (upper[i] - lower[i]))
     names = {"piecewise_linear": [["rate", "rate_linear"]],
              "piecewise_quadratic": [["rate_linear"], ["rate_quadratic"]],
              "piecewise_cubic": [["rate_linear"], ["rate_quadratic"], ["rate_cubic"]]}.get(ft)
